@@ -836,6 +836,16 @@ static void drive_img(uint32_t maxcalls) {
     if (npix > (S.max_pixels ? S.max_pixels : (1u << 20))) { final = "@stdh: image too large for the harness"; goto done; }
     uint32_t fmt = S.pixfmt ? S.pixfmt : WUFFS_BASE__PIXEL_FORMAT__BGRA_NONPREMUL;
     if (fmt == 1) fmt = nativefmt;
+    // A pixel buffer smaller than the image is legal (the frame is clipped): the high nibble of the dump option
+    // selects one (1: one row short, 2: one column short, 3: half in both directions, 4: 1x1, 5: half the rows).
+    switch (S.dump_pixels >> 4) {
+      case 1: if (h > 1) h--; break;
+      case 2: if (w > 1) w--; break;
+      case 3: w = (w + 1) / 2; h = (h + 1) / 2; break;
+      case 4: if (w) w = 1; if (h) h = 1; break;
+      case 5: h = (h + 1) / 2; break;
+    }
+    S.dump_pixels &= 15;
     wuffs_base__pixel_config__set(&ic.pixcfg, fmt, WUFFS_BASE__PIXEL_SUBSAMPLING__NONE, w, h);
     uint64_t plen = wuffs_base__pixel_config__pixbuf_len(&ic.pixcfg);
     if (plen > (1ull << 28)) { final = "@stdh: pixel buffer too large for the harness"; goto done; }
